@@ -1,4 +1,5 @@
 import ArimModel.Weights
+import ArimProofs.Tie.C07
 import ArimProofs.Lemmas.Weights
 import ArimProofs.C06
 import Mathlib.Analysis.SpecialFunctions.Trigonometric.Inverse
@@ -313,5 +314,32 @@ example : (revSpec tR (revSpec tR ⟨true, .fluidSolid, .L, .L, 0, 1, 2⟩)).the
     (by have := Real.pi_pos; linarith) (by have := Real.pi_pos; linarith)
 
 end examples
+
+
+/-! ## The same statement about the code as translated on this run
+
+`Src.reverse_beamspread_2d_for_path` and `Src.beamspread_2d_for_path` are the translations made from `/repo/src` on
+every run; `Tie.C07.tie_reverse_beamspread` and `Tie.C06.tie_beamspread` identify them with the model. -/
+section OnSource
+open Arim.C06 Arim.Tie.C06 Arim.Tie.C07
+
+/-- **reverse beamspread of a path = direct beamspread of the reversed path, for the translated functions**: `vel'`,
+`ang'`, `leg'` are the ray-geometry queries of the reversed path (legs and velocities in reverse order, incidence
+angles `ang'` linked to the direct incidence angles by Snell's law at every interior interface). -/
+theorem src_reverse_beamspread_eq_reversed (ni : Nat) (vel ang leg vel' ang' leg' : Nat → ℝ) (hn : 2 ≤ ni)
+    (hleg : legsOf leg' (ni - 1) = (legsOf leg (ni - 1)).reverse)
+    (hvel : velsOf vel' (ni - 1) = (velsOf vel (ni - 1)).reverse)
+    (hv : ∀ v ∈ velsOf vel (ni - 1), v ≠ 0)
+    (hsnell : ∀ k (h1 : k + 1 < (velsOf vel (ni - 1)).length) (h2 : k < (angsOf ang (ni - 1)).length)
+        (h3 : k < (angsOf ang' (ni - 1)).reverse.length),
+      (velsOf vel (ni - 1))[k] * Real.sin ((angsOf ang' (ni - 1)).reverse[k])
+        = (velsOf vel (ni - 1))[k + 1] * Real.sin ((angsOf ang (ni - 1))[k])) :
+    Src.reverse_beamspread_2d_for_path srcOps ni vel ang leg = Src.beamspread_2d_for_path srcOps ni vel' ang' leg' := by
+  rw [tie_reverse_beamspread srcOps ni vel ang leg hn, tie_beamspread srcOps ni vel' ang' leg' hn, rtrig_srcOps]
+  rw [revBeamspread_eq_reversed_real _ _ _ (angsOf ang' (ni - 1)).reverse (by simp [velsOf, angsOf]; omega)
+    (by simp [angsOf]) hv hsnell]
+  rw [hleg, hvel, List.reverse_reverse]
+
+end OnSource
 
 end Arim.C07
